@@ -37,7 +37,7 @@ CLAIMED["C02"] = {
             "collapse_axis, in-place axis slicing, normalised to row- and column-space selectors); targets carry the records' row "
             "selector, weights carry it or are empty, names carry their container's column selector or are dropped; the label "
             "filter pushes record, target, weight and counts under one condition; per-feature/per-target iteration attaches the "
-            "name at the collapsed index. Not decided: that the selector itself is the documented one (ceil(ratio*n), a "
+            "name at the collapsed index; the raw-buffer split of owned data is dominated by a standard-layout test. Not decided: that the selector itself is the documented one (ceil(ratio*n), a "
             "permutation, in-range indices).",
     "design_ref": "DESIGN.md section 4, C02",
     "note": "Trusted: rustc resolution/typeck, the fact dump, documented semantics of ndarray selection methods and Vec::split_off.",
@@ -50,8 +50,8 @@ CLAIMED["C03"] = {
             "on the received records and hand them back; every predict_inplace checks batch rows against the output before writing, "
             "every default_target sizes its leading extent from the batch rows; a batch-axis abstract interpretation finds no "
             "reduction/statistic/selection along the batch axis or over all elements, no reshape of the batch, no raw-layout access "
-            "and no mutable state carried across rows on any predict path (helpers followed to depth 3; also for the scalers' and "
-            "whiteners' transforms); model types contain no interior mutability; the composing wrappers follow their parts. Not "
+            "and no mutable state carried across rows on any predict path (helpers followed to depth 6, their results carrying the batch axis back to the caller; also for the scalers' and "
+            "whiteners' transforms); model types contain no interior mutability; the composing wrappers follow their parts (the running arg-max replaces label and incumbent probability together). Not "
             "decided: equality of floating-point roundings between batch and single-row evaluation.",
     "design_ref": "DESIGN.md section 4, C03",
     "note": "Trusted: rustc resolution/typeck, the fact dump; ndarray's elementwise ops, dot and row iterators are row-local.",
@@ -76,10 +76,12 @@ CLAIMED["C07"] = {
             "inferred from the Distance trait's own methods, with function summaries); the three index kinds perform the same build "
             "checks and reject wrong-dimension queries; the relation that admits a point at distance exactly `range` is the same "
             "in all three kinds - for the k-d tree read from the typed HIR of the kdtree crate at the locked version and "
-            "intersected with linfa's own post-filter. Not decided: geometric sufficiency of pruning bounds, k-NN ties.",
+            "intersected with linfa's own post-filter; a homogeneity-degree (dimensional) analysis of the four provided metrics shows "
+            "`distance` of degree 1 in the coordinate differences on every branch and rdistance / rdist_to_dist / dist_to_rdist "
+            "consistent with one reduced degree (a squared distance returned as a distance is degree 2). Not decided: geometric sufficiency of pruning bounds, k-NN ties.",
     "design_ref": "DESIGN.md section 4, C07",
     "note": "Trusted: rustc resolution/typeck, the fact dump (also of the locked kdtree dependency), consistency of each metric's four Distance methods.",
-    "technique": _T + ": unit-of-measure tag inference (dist/rdist), sibling agreement of argument checks and of the radius relation, dependency facts for kdtree",
+    "technique": _T + ": unit-of-measure tag inference (dist/rdist), sibling agreement of argument checks and of the radius relation, dependency facts for kdtree, homogeneity-degree abstract interpretation of the Distance impls",
 }
 
 CLAIMED["C08"] = {
@@ -87,8 +89,9 @@ CLAIMED["C08"] = {
             "frontier is control-dependent on `neighbour count >= min_points` in canonical form (strictness is the definition) and the "
             "cluster id advances once per seed; the count includes every element of the range query, the query point included; both "
             "algorithms build their index only through the configurable NearestNeighbour and query it with the tolerance; results of "
-            "within_range (documented as unordered) are never used by rank without a sort. Independence from the index kind further "
-            "relies on C07. Not decided: OPTICS exactly-once listing and reachability values, border-point labels.",
+            "within_range (documented as unordered) are never used by rank without a sort; a DBSCAN seed is skipped only when already labelled or when its neighbour count is "
+            "below min_points; OPTICS inserts a sample into `processed` in the same step in which it appends it to the ordering. Independence from the index kind further "
+            "relies on C07. Not decided: OPTICS reachability values, border-point labels.",
     "design_ref": "DESIGN.md section 4, C08",
     "note": "Trusted: rustc resolution/typeck, the fact dump.",
     "technique": _T + ": control dependence of frontier insertions on the canonical core condition, order taint of range-query results",
@@ -100,7 +103,8 @@ CLAIMED["C09"] = {
             "updates index and distance together and covers every centroid row; every field of the model returned by fit is a "
             "function of state saved under the same acceptance guard as the returned centroids (never of per-restart scratch "
             "state); the buffers behind inertia and counts were filled from the centroid matrix that is returned, with no "
-            "reassignment in between. Not decided: cost monotonicity, bounding box, numeric inertia values.",
+            "reassignment in between on any path; every call of the scan or of the update helpers passes the model's / parameter "
+            "set's own metric. Not decided: cost monotonicity, bounding box, numeric inertia values.",
     "design_ref": "DESIGN.md section 4, C09",
     "note": "Trusted: rustc resolution/typeck, the fact dump, Distance::rdistance being the reduced distance of the configured metric.",
     "technique": _T + ": call-graph agreement on one arg-min routine, guarded-state consistency and reaching-definition freshness of the result fields",
@@ -112,7 +116,9 @@ CLAIMED["C10"] = {
             "on everything reachable from fit, the results of Cholesky, triangular solves, min/argmin and parameter estimation "
             "are propagated as errors (never unwrapped or discarded) and the empty-component test precedes the division by the "
             "component weights; the responsibilities' log-sum-exp exponentiates v - max(v), so probabilities stay finite "
-            "arbitrarily far from the data. Not decided: positive definiteness, weights summing to one.",
+            "arbitrarily far from the data; everything predict and predict_proba compute is reached from reads of the mixing weights, the "
+            "means and the precision factors (a prediction from the unweighted component densities is not one of maximal probability). "
+            "Not decided: positive definiteness, weights summing to one.",
     "design_ref": "DESIGN.md section 4, C10",
     "note": "Trusted: rustc resolution/typeck, the fact dump.",
     "technique": _T + ": ordering/dominance of refresh over store, error-propagation dataflow, shifted log-sum-exp chain rule",
@@ -124,10 +130,13 @@ CLAIMED["C12"] = {
             "data handed to it; log-sum-exp and soft-max exponentiate v - max(v); the predicted class is computed from the same "
             "scores as the published probabilities (binary: threshold on predict_probabilities itself, >= threshold -> positive "
             "class; multinomial: arg-max of the scores that predict_probabilities soft-maxes, label read from the stored class "
-            "list). Not decided: stationarity of the returned point, numeric range of probabilities.",
+            "list); every arm of the GLM link/distribution dispatchers calls the same operation of its variant; on every path "
+            "(with and without intercept) the value of each loss / gradient function and of the optimiser's cost/gradient adapters is "
+            "computed from the penalty strength alpha - a path-enumerating influence analysis. Not decided: stationarity of the "
+            "returned point beyond these necessary conditions, numeric range of probabilities.",
     "design_ref": "DESIGN.md section 4, C12",
     "note": "Trusted: rustc resolution/typeck, the fact dump; soft-max is monotone per row.",
-    "technique": _T + ": dominance of validation over the optimiser call, shifted log-sum-exp chain rule, common-producer check for decision and probabilities",
+    "technique": _T + ": dominance of validation over the optimiser call, shifted log-sum-exp chain rule, common-producer check for decision and probabilities, sibling agreement of dispatcher arms, per-path influence (data-dependence) analysis",
 }
 
 CLAIMED["C16"] = {
@@ -135,20 +144,22 @@ CLAIMED["C16"] = {
             "its output from the input's own targets, weights, feature and target names and replaces only the records by the "
             "array-level transform; every fit routine returns an error for zero samples before the first reduction; in the "
             "scalers every division by a data-derived quantity (std, max-min, max-abs, row norm) is control-dependent on a zero "
-            "test of that divisor. Not decided: achieved means, variances, covariances.",
+            "test of that divisor; LinearScaler::transform applies only affine per-element arithmetic (no clamp/min/max/abs, no "
+            "branch on element values), so it is the fitted affine map on unseen rows too. Not decided: achieved means, variances, covariances.",
     "design_ref": "DESIGN.md section 4, C16",
     "note": "Trusted: rustc resolution/typeck, the fact dump. Divisions by singular values in the whiteners are outside the rule (the property claims whitening on full-rank data only).",
     "technique": _T + ": provenance of the output dataset's containers, dominance of the empty-input guard, zero-guard contradiction rule on data-derived divisors",
 }
 
 CLAIMED["C18"] = {
-    "text": "Decides two structural necessary conditions for PCA for all data: the empty-dataset and embedding-size (outside 1..p) "
+    "text": "Decides structural necessary conditions for PCA for all data: the empty-dataset and embedding-size (outside 1..p) "
             "tests return their errors before the records are reduced or decomposed; the divisor turning squared singular values "
-            "into explained variances derives from the training sample count recorded at fit time (or, for the ratio, cancels). "
+            "into explained variances derives from the training sample count recorded at fit time (or, for the ratio, cancels); predict is (x - mean).components^T and inverse_transform composed with it is, in a "
+            "non-commutative normal form over dot/+/-/t, exactly x.E^T.E - m.E^T.E + m, the projection about the mean. "
             "Not decided: orthonormality, ordering, spectral optimality, whitening covariance.",
     "design_ref": "DESIGN.md section 4, C18",
     "note": "Trusted: rustc resolution/typeck, the fact dump; the feature=blas branch cannot be built offline and is not analysed.",
-    "technique": _T + ": dominance of input guards over the decomposition, dataflow of the variance divisor to the recorded sample count",
+    "technique": _T + ": dominance of input guards over the decomposition, dataflow of the variance divisor to the recorded sample count, symbolic normal form of the transform/inverse composition",
 }
 
 CLAIMED["C13"] = {
@@ -165,14 +176,16 @@ CLAIMED["C13"] = {
 }
 
 CLAIMED["C14"] = {
-    "text": "Decides two structural necessary conditions for all trees and data: the comparison that routes a training row to the "
+    "text": "Decides structural necessary conditions for all trees and data: the comparison that routes a training row to the "
             "left child when the child masks are built is the same canonical relation (feature OP split) as the one "
             "make_prediction descends by; split creation is dominated by the min_weight_split, max_depth and "
             "min_impurity_decrease tests, candidates leaving less than min_weight_leaf on a side are skipped, and children are "
-            "created at depth + 1. Not decided: impurity arithmetic, leaf majorities, importances.",
+            "created at depth + 1; the running side weights start from zero or from a total of sample weights and the fraction "
+            "mixing the child impurities divides by a total of sample weights (not a sample count); the records are read only "
+            "through axis-aware accessors (no raw memory-order buffer without a layout test). Not decided: impurity arithmetic, leaf majorities, importances.",
     "design_ref": "DESIGN.md section 4, C14",
     "note": "Trusted: rustc resolution/typeck, the fact dump.",
-    "technique": _T + ": sibling agreement of the fit-time and predict-time routing relation, dominance of limit tests over split creation",
+    "technique": _T + ": sibling agreement of the fit-time and predict-time routing relation, dominance of limit tests over split creation, dependency analysis of weight accumulators, raw-buffer who-may-call rule",
 }
 
 CLAIMED["C19"] = {
@@ -181,7 +194,9 @@ CLAIMED["C19"] = {
             "every field and variant of every serialisable type is written under its own name directly from the field and "
             "restored from the input (no skip/default/rename/with/skip_serializing_if outside a reasoned allow-list); field "
             "types are closed under 'round-trips exactly'; and a generated harness crate, only type-checked, shows that every "
-            "nameable serialisable type instantiated at f64 and f32 satisfies Serialize + DeserializeOwned. Holds for every "
+            "nameable serialisable type instantiated at f64 and f32 satisfies Serialize + DeserializeOwned; the one deliberately unrestored field (the tokenizer function) is protected by a "
+            "serialised guard that is raised wherever a function is installed and checked first by every public entry of the fitted "
+            "vectorisers. Holds for every "
             "value of every such type. Not decided: bit-level behaviour of third-party serialisers.",
     "design_ref": "DESIGN.md section 4, C19",
     "note": "Trusted: serde_derive's expansion (the pinned version's output is what is analysed), serde impls of std/ndarray/sprs/rand_xoshiro/serde_regex, the format crate.",
